@@ -22,7 +22,7 @@ ASSUMPTIONS = ['csv parsing and number parsing/formatting are transport: foreign
                'field names of different files are disjoint, except that ONE legacy cluster_*.csv may name a field that save_metadata also '
                'writes (csv files are visited before tsv files; the order among several csv or several tsv files is the '
                'directory order, unspecified, so a history never has two csv files naming the same field)']
-FIELDS = ['group', 'quality', 'n_x']
+FIELDS = ['group', 'quality', 'n_x', 'in']       # 'in': cluster_in.tsv is a prefix of the ignored cluster_info.tsv
 TEXTS = ['good', 'mua', 'a\tb', 'x,y', 'say "hi"', 'noise ']
 
 
@@ -181,6 +181,14 @@ def judge(case, impl_res, ans):
             return 'SPEC: reload %d: the subset store does not hold the best channels of each spike\'s template' % i
         # correspondence with the disk model (foreign files included)
         mm = {f: {repr(_cid(c)): _val(val) for c, val in rows} for f, rows in m['view']['metadata']}
+        # "next to metadata found in other TSV/CSV files": a well-formed foreign file contributes its field
+        for o in case['ops']:
+            if o['k'] == 'write_file' and o['kind'] == 'valid':
+                f = o.get('field') or o['stem'][len('foreign_'):]
+                last = [x for x in case['ops'] if x['k'] == 'write_file' and x['stem'] == o['stem']][-1]
+                if last['kind'] == 'valid' and real_meta.get(f) != mm.get(f):
+                    return 'SPEC: reload %d: field %r of the well-formed foreign file %s.%s is %s, the file says %s' % (
+                        i, f, o['stem'], o['ext'], real_meta.get(f), mm.get(f))
         if real_meta != mm:
             return 'CORR: reload %d: metadata %s differs from the disk model %s' % (i, real_meta, mm)
         if m['subset'] and '_phy_spikes_subset.waveforms.npy' not in v['files'] and spec.get('raw'):
@@ -269,7 +277,8 @@ def rand_history(rng, spec, L):
             ext = rng.pick(['tsv', 'csv'])
             dl = '\t' if ext == 'tsv' else ','
             ff = rng.pick(foreign_fields)
-            stem = 'foreign_' + ff
+            # one stem per foreign field; two of them are fragments of the ignored name `cluster_info`
+            stem = {'ffa': 'foreign_ffa', 'ffb': 'info', 'ffc': 'cluster'}[ff]
             if kind == 'valid':
                 text = dl.join(['cluster_id', ff]) + '\n' + ''.join('%d%s%s\n' % (i, dl, rng.pick(['7', '1.5', 'abc', ''])) for i in rng.sample(range(9), 3))
             elif kind == 'empty':
@@ -291,7 +300,7 @@ def rand_history(rng, spec, L):
             else:
                 stem = 'cluster_info'
                 text = dl.join(['cluster_id', 'group', 'zz']) + '\n' + '1%sxx%s3\n' % (dl, dl)
-            ops.append(dict(k=k, stem=stem, ext=ext, text=text, kind=kind, mismatch=(kind == 'valid' and rng.random() < .4)))
+            ops.append(dict(k=k, stem=stem, ext=ext, text=text, kind=kind, field=ff, mismatch=(kind == 'valid' and rng.random() < .4)))
         elif k == 'save_subset':
             ops.append(dict(k=k, nst=rng.randrange(1, 3), rs=rng.randrange(1000)))
         elif k == 'close':
@@ -308,7 +317,12 @@ def rand_history(rng, spec, L):
         if o['k'] == 'write_file':
             o['ext'] = seen.setdefault(o['stem'], o['ext'])
             if o['kind'] == 'valid' and o.get('mismatch'):
-                continue        # a tab-separated .csv / comma-separated .tsv (old phy files): the header decides
+                # a tab-separated .csv / comma-separated .tsv (old phy files): the header line decides
+                want = ',' if o['ext'] == 'tsv' else '\t'
+                other = '\t' if want == ',' else ','
+                if want not in o['text'].split('\n')[0]:
+                    o['text'] = o['text'].replace(other, want)
+                continue
             if o['kind'] != 'empty':
                 dl_old, dl_new = ('\t', ',') if o['ext'] == 'csv' else (',', '\t')
                 if ('\t' in o['text'].split('\n')[0]) != (o['ext'] == 'tsv'):
